@@ -89,6 +89,11 @@ func lookupScenario(p lookupParams) *fw.Scenario {
 					all[len(p.Threads)] = append(all[len(p.Threads)], obs{k, lookup(k)})
 				}
 			}
+			// ... and keys that are new AFTER the concurrent phase must not be
+			// given a path that one of the earlier keys owns
+			for _, k := range []uint64{98, 99} {
+				all[len(p.Threads)] = append(all[len(p.Threads)], obs{k, lookup(k)})
+			}
 		}
 		check := func(e *vsched.Execution) ([]fw.Issue, string) {
 			var is []fw.Issue
@@ -216,13 +221,14 @@ func composefsScenario(reqA, reqB string) *fw.Scenario {
 }
 
 func runSchedules(ctx *fw.Ctx, rep *fw.Report) {
-	addRule(rep, "(c) schedules: 2-3 threads resolving the same fresh / distinct fresh / known keys through localfs localToQid (fallback table) and qids.Mapper.QIDFor, and two connections walking to the same / different files of a composefs server; every Mazurkiewicz trace (DPOR+sleep sets; table accesses are visible operations); oracle: same key => one path for all threads and afterwards, distinct keys => distinct paths, no happens-before race on the mapper's map, no panic")
+	addRule(rep, "(c) schedules: 2-3 threads resolving the same fresh / distinct fresh / known keys through localfs localToQid (fallback table) and qids.Mapper.QIDFor, and two connections walking to the same / different files of a composefs server; every Mazurkiewicz trace (DPOR+sleep sets; table accesses are visible operations); oracle: same key => one path for all threads and afterwards, distinct keys => distinct paths (including two keys that are new only after the concurrent phase), no happens-before race on the mapper's map, no panic")
 	var scs []*fw.Scenario
 	shapes := [][][]uint64{
 		{{1}, {1}}, {{1}, {2}}, {{0}, {1}}, {{1, 2}, {2, 1}}, {{1, 1}, {1}},
+		{{1}, {2}, {1}}, // two first lookups of one key with a first lookup of another key in between
 	}
 	if !ctx.Quick() {
-		shapes = append(shapes, [][]uint64{{1}, {1}, {1}}, [][]uint64{{1}, {2}, {1}}, [][]uint64{{1, 2}, {2}, {1}})
+		shapes = append(shapes, [][]uint64{{1}, {1}, {1}}, [][]uint64{{1, 2}, {2}, {1}})
 	}
 	for _, what := range []string{"localfs-localToQid", "qids-Mapper"} {
 		for _, sh := range shapes {
